@@ -363,6 +363,16 @@ func (f *frame) applyContract(callee *ssa.Function, con *Contract, args []Val, s
 			}
 		}
 		f.havocHeaps(st, hs)
+		// builders: a contract with a modifies clause changes the content of the builders it lists (sb(...)) and of
+		// no other builder that existed at the call
+		sb := sbHeap(g)
+		if a, b := pre.Heap(sb), st.Heap(sb); a != b && !(len(con.Modifies) > 0 && con.Modifies[0] == "*") {
+			var keys []string
+			for _, mb := range con.ModBuilders {
+				keys = append(keys, env.sbKey(env.Eval(mb.Expr)))
+			}
+			c.assume(st, sbFrame(a, b, pre.next, keys))
+		}
 	} else {
 		ws := g.WriteSetOf(callee)
 		if ws.Top {
